@@ -1,7 +1,7 @@
 (** C20 — property theorems only: statement, [exact] of a lemma proved elsewhere, [Print Assumptions].
     Model: Model/C20_Loop.v (mirrors RecurrentSelectionBreedingProgram.initialize/reset/advance/evolve on an explicit
     heap; operators and logbook are arbitrary heap transformers, [opset]). *)
-From PV Require Import Lib.Common Model.C20_Loop Proofs.C20_Loop Proofs.C20_Chain Proofs.C20_Heap Proofs.C20_Indep Proofs.C20_Fresh Proofs.C20_Main.
+From PV Require Import Lib.Common Model.C20_Loop Proofs.C20_Loop Proofs.C20_Chain Proofs.C20_Heap Proofs.C20_Indep Proofs.C20_Fresh Proofs.C20_Progress Proofs.C20_Sharing Proofs.C20_Main.
 Local Open Scope nat_scope.
 
 (** Call order, time index, replicate counter — for ALL operators/logbooks, ALL counts, ALL states: the calls of
@@ -74,6 +74,27 @@ Theorem C20_replicates_each_fresh : forall h0 start ops ngen li n lo st,
 Proof. intros h0 start ops ngen li n lo st Hwf Hl Ho Hlo Hi. exact (replicates_each_fresh h0 start Hwf Hl ops Ho ngen li n lo st Hlo Hi). Qed.
 Print Assumptions C20_replicates_each_fresh.
 
+(** Progress — the [ok = true] branch of C20_trace_shape is the one that applies: with operators that return five dicts,
+    do not raise and leave no parameter name of the log call in miscout, and a logbook that does not raise
+    ([ops_total]), on an initialised programme with a well-formed start state evolve never fails, so each replicate
+    evaluates the reset population once and every generation applies the four operators exactly once, in order,
+    each followed by its log call *)
+Theorem C20_evolve_full_trace : forall h0 start ops strict initres nrep ngen li lo st,
+  start_wf h0 start -> length start = 5 ->
+  forallb (fun o : option loc => match o with Some _ => true | None => false end) start = true ->
+  ops_wb ops -> ops_total ops -> (lo <= 1)%Z -> inv h0 start false lo st -> misc_collides true (p_misc st) = false ->
+  match evolve ops strict initres nrep ngen li st with
+  | (st', evs, ok) => ok = true /\ map sig evs = evolve_sig true nrep ngen li (p_tmax st) (p_rep st)
+  end.
+Proof. intros h0 start ops strict initres nrep ngen li lo st Hwf Hl Hi Ho Ht Hlo Hinv Hm.
+       exact (evolve_full_trace h0 start Hwf Hl Hi ops Ho Ht strict initres nrep ngen li lo st Hlo Hinv Hm). Qed.
+Print Assumptions C20_evolve_full_trace.
+
+(** action programs without the wrong-return-type, raise and colliding-miscout actions are total *)
+Theorem C20_safe_programs_total : forall g, safe_progs g = true -> ops_total (interp g).
+Proof. exact interp_total. Qed.
+Print Assumptions C20_safe_programs_total.
+
 (** the protected region really is the start state: every start container, every leaf it holds, hence its contents *)
 Theorem C20_start_region_covers : forall h0 start h d,
   In (Some d) start ->
@@ -108,6 +129,15 @@ Theorem C20_deepcopy_fresh_equal : forall h d h' d',
 Proof. exact deepcopy_fresh_equal. Qed.
 Print Assumptions C20_deepcopy_fresh_equal.
 
+(** ... and the same sharing: two keys of the copy hold the same leaf object exactly when they did in the original *)
+Theorem C20_deepcopy_sharing : forall h d h' d' kvs kvs',
+  deepcopy h d = Some (h', d') -> hget h d = Some (ODict kvs) -> hget h' d' = Some (ODict kvs') ->
+  length kvs' = length kvs /\
+  forall i j dflt, i < length kvs -> j < length kvs ->
+    (snd (nth i kvs' dflt) = snd (nth j kvs' dflt) <-> snd (nth i kvs dflt) = snd (nth j kvs dflt)).
+Proof. exact deepcopy_sharing. Qed.
+Print Assumptions C20_deepcopy_sharing.
+
 (** an uninitialised programme stores what the initialisation operator returned and runs the loop on that state *)
 Theorem C20_evolve_initialises : forall ops initres nrep ngen li st,
   is_initialized st = false -> length initres = 5 ->
@@ -135,5 +165,11 @@ Example C20_hyps_satisfiable :
   let st := init_state [[1; 2]; [3]]%Z [[(0%Z, 0); (1%Z, 0)]; [(0%Z, 1)]; []; []; [(2%Z, 1)]] [Some 0; Some 1; Some 0; Some 3; Some 4] 5 0 in
   start_wf (p_heap st) (p_start st) /\ length (p_start st) = 5 /\ is_initialized st = true
   /\ inv (p_heap st) (p_start st) false 0 st
-  /\ ops_wb (interp (mkProgs [AApp 0 0 7; ASet 5 0 [1%Z]] [AAppT 1 0; ADel 0 2] [ASetT 3 1; AStash 0 0] [ANew 0; AUnstash 2 0] [] [] [] [] [])).
-Proof. exact example_start_wf. Qed.
+  /\ ops_wb (interp (mkProgs [AApp 0 0 7; ASet 5 0 [1%Z]] [AAppT 1 0; ADel 0 2] [ASetT 3 1; AStash 0 0] [ANew 0; AUnstash 2 0] [] [] [] [] []))
+  /\ ops_total (interp (mkProgs [AApp 0 0 7; ASet 5 0 [1%Z]] [AAppT 1 0; ADel 0 2] [ASetT 3 1; AStash 0 0] [ANew 0; AUnstash 2 0] [] [] [] [] []))
+  /\ misc_collides true (p_misc st) = false.
+Proof.
+  pose proof example_start_wf as H. cbn zeta in *. destruct H as (H1 & H2 & H3 & H4 & H5).
+  split; [exact H1|]. split; [exact H2|]. split; [exact H3|]. split; [exact H4|]. split; [exact H5|].
+  split; [apply interp_total; reflexivity | reflexivity].
+Qed.
